@@ -549,10 +549,23 @@ static void op_inq(stmt_t *s, sb_t *o) {
 
 /* quiesce: library-wide resource report */
 static long long malloc_at_script_begin = 0;   /* heap the library already held when the script started (leaked by earlier scripts) */
+/* number of this process's open POSIX descriptors that refer to files below the script's scratch directory
+ * (the data files): with no netCDF file open there must be none */
+static int fds_in_scratch(void) {
+    int n = 0; DIR *d = opendir("/proc/self/fd"); if (!d) return -1;
+    struct dirent *de; size_t L = strlen(curdir);
+    while ((de = readdir(d))) {
+        if (de->d_name[0] == '.') continue;
+        char lp[64], tgt[2048]; snprintf(lp, sizeof lp, "/proc/self/fd/%s", de->d_name);
+        ssize_t k = readlink(lp, tgt, sizeof tgt - 1); if (k <= 0) continue; tgt[k] = 0;
+        if (L && !strncmp(tgt, curdir, L)) n++;
+    }
+    closedir(d); return n;
+}
 static void op_quiesce(sb_t *o) {
     int nopen = -1; int ids[4096]; MPI_Offset msz = -1;
     int e1 = ncmpi_inq_files_opened(&nopen, ids); int e2 = ncmpi_inq_malloc_size(&msz);
-    sb_printf(o, ",\"rc\":0,\"e\":[%d,%d],\"nopen\":%d,\"malloc\":%lld,\"malloc0\":%lld,\"ledger\":", e1, e2, nopen, (long long)msz, malloc_at_script_begin);
+    sb_printf(o, ",\"rc\":0,\"e\":[%d,%d],\"nopen\":%d,\"malloc\":%lld,\"malloc0\":%lld,\"fds\":%d,\"ledger\":", e1, e2, nopen, (long long)msz, malloc_at_script_begin, fds_in_scratch());
     char *lj = shim_ledger_report();
     sb_put(o, lj); free(lj);
 }
